@@ -29,10 +29,10 @@ CHECKS['C01'] = dict(
 CHECKS['C02'] = dict(
     title='tree table valid LLRB, logarithmic lookups', level='exploration',
     jobs=tree_jobs('C02', ['--universe', '10', '--cases', '600', '--big', '16', '--bign', '5000'], ['--universe', '12', '--cases', '4000', '--big', '32', '--bign', '20000']),
-    rule='evaluation = one put/remove/get (including failed removes and replacing puts) after which the independent walker '
+    rule='evaluation = one put/remove/get (including failed removes, replacing puts, and puts that fail because their 1st/2nd/3rd allocation fails - from every shape) after which the independent walker '
          '(order, black root, no red-red, equal black height, no right-leaning lone red, node count) and qtreetbl_check() are evaluated; '
          'lookup cost = comparator calls of getobj, bound 2^cmp <= (n+1)^2. distinct = distinct (configuration, shape) pairs.',
-    require=['structure_checks', 'lookups_cost_checked', 'exhaustive_shapes', 'remove_absent', 'put_replace'],
+    require=['structure_checks', 'lookups_cost_checked', 'exhaustive_shapes', 'remove_absent', 'put_replace', 'failed_or_fault_injected_puts_checked'],
     assumptions=TREE_ASSUME)
 
 CHECKS['C03'] = dict(
@@ -61,10 +61,10 @@ CHECKS['C05'] = dict(
                                  args=['--cases', '5000' if tier == 'thorough' else '480'])],
     rule='evaluation = one API call (put/putstr/putstrf/putint/get/getstr/getint/remove/clear/size/getnext walk) compared with an association-array model; '
          'after every operation of small configurations (every 16th otherwise) every universe key is re-read and the chain walker re-checks slot placement '
-         '(reference MurmurHash3), stored hashes, duplicates and the count. Ranges 1,2,3,7,64,default; removals chosen by chain position head/middle/tail/only. '
+         '(reference MurmurHash3), stored hashes, duplicates and the count. Ranges 1,2,3,7,64,default; removals chosen by chain position head/middle/tail/only; one key style consists of pairs of distinct keys with identical full 32-bit hashes (found by birthday search with the reference hash). '
          'distinct = distinct (universe, range, chain layout) states after a mutation.',
     require=['content_compares', 'structure_checks', 'walks_audited', 'remove_chain_head', 'remove_chain_middle', 'remove_chain_tail',
-             'remove_only_node', 'remove_absent', 'put_replace', 'getint'],
+             'remove_only_node', 'remove_absent', 'put_replace', 'getint', 'histories_with_full_hash_collisions'],
     assumptions=['association-array model and reference MurmurHash3 x86_32 (refs/ref_hash.c, validated against published vectors)',
                  'x86-64 / glibc / gcc 12; zero-length values are not generated (malloc(0) is implementation-defined)'])
 
